@@ -66,31 +66,62 @@ spec("fw_asym",
          (2, 3): ["ftp"], (3, 2): ["ssh"]},
      sens={(2, 0): 100, (3, 0): 50})
 
-# --- per-host deny-lists that block one pivot but not another
+# --- per-host deny-lists that block one pivot but not another; hosts listed out of address order
 spec("deny",
      subnets=[2, 1], topology=topo(3, [(0, 1), (1, 2)]),
      os=["linux"], services=["ssh", "ftp"], processes=["tomcat"],
-     hosts={(1, 0): H("linux", ["ssh"], ["tomcat"]),
-            (1, 1): H("linux", ["ftp"], []),
+     hosts={(1, 1): H("linux", ["ftp"], []),          # hosts deliberately not listed in address order
             (2, 0): H("linux", ["ssh", "ftp"], ["tomcat"],
-                      deny={(1, 0): ["ssh", "ftp"], (1, 1): ["ftp"]})},
+                      deny={(1, 0): ["ssh", "ftp"], (1, 1): ["ftp"]}),
+            (1, 0): H("linux", ["ssh"], ["tomcat"])},
      exploits={"e_ssh": E("ssh", "linux", 0.7, 1, U), "e_ftp": E("ftp", None, 1.0, 1, U)},
      privescs={"pe_tomcat": P("tomcat", None, 0.5, 2, R)},
      fw={(0, 1): ["ssh", "ftp"], (1, 0): [], (1, 2): ["ssh", "ftp"], (2, 1): ["ssh"]},
      sens={(2, 0): 10})
 
-# --- two public subnets, a sensitive host in a public subnet, an empty internet allow-list
+# --- three public subnets with different internet rules (one of them empty: that subnet can only be
+#     entered from inside), sensitive hosts in public subnets, a negative host value
 spec("two_public",
-     subnets=[1, 1, 1], topology=topo(4, [(0, 1), (0, 2), (1, 2), (2, 3)]),
+     subnets=[1, 1, 1], topology=topo(4, [(0, 1), (0, 2), (0, 3), (1, 2), (2, 3)]),
      os=["linux"], services=["ssh", "http"], processes=["cron"],
-     hosts={(1, 0): H("linux", ["http"], ["cron"], value=-5),
-            (2, 0): H("linux", ["ssh"], ["cron"]),
+     hosts={(1, 0): H("linux", ["http", "ssh"], ["cron"], value=-5),
+            (2, 0): H("linux", ["ssh", "http"], ["cron"]),
             (3, 0): H("linux", ["ssh", "http"], [])},
      exploits={"e_http": E("http", "linux", 1.0, 1, U), "e_ssh": E("ssh", None, 0.6, 3, R)},
      privescs={"pe_cron": P("cron", "linux", 1.0, 1, R)},
-     fw={(0, 1): ["http"], (1, 0): [], (0, 2): [], (2, 0): [], (1, 2): ["ssh"], (2, 1): ["http"],
-         (2, 3): ["http"], (3, 2): []},
+     fw={(0, 1): ["http"], (1, 0): [], (0, 2): ["ssh"], (2, 0): [], (0, 3): [], (3, 0): ["ssh", "http"],
+         (1, 2): ["ssh"], (2, 1): ["http"], (2, 3): ["http"], (3, 2): []},
      sens={(2, 0): 20, (3, 0): 30})
+
+# --- the two firewall layers must be satisfied by the SAME pivot: one pivot passes the subnet rule but is
+#     denied by the target, the other is not denied but its subnet rule blocks; a connected pair of subnets
+#     whose rules are empty in both directions (scans still discover across it)
+spec("two_layer",
+     subnets=[1, 1, 1, 1], topology=topo(5, [(0, 1), (1, 2), (1, 3), (2, 3), (1, 4)]),
+     os=["linux"], services=["http", "ftp", "ssh"], processes=["cron"],
+     hosts={(1, 0): H("linux", ["http"], ["cron"]),
+            (2, 0): H("linux", ["ftp"], ["cron"]),
+            (3, 0): H("linux", ["ssh"], [], deny={(1, 0): ["ssh"]}),
+            (4, 0): H("linux", ["http"], [])},
+     exploits={"e_http": E("http", None, 1.0, 1, U), "e_ftp": E("ftp", "linux", 0.9, 1, U),
+               "e_ssh": E("ssh", None, 0.7, 1, R)},
+     privescs={"pe_cron": P("cron", "linux", 1.0, 1, R)},
+     fw={(0, 1): ["http"], (1, 0): [], (1, 2): ["ftp"], (2, 1): ["ftp"], (1, 3): ["ssh"], (3, 1): [],
+         (2, 3): [], (3, 2): ["ssh"], (1, 4): [], (4, 1): []},
+     sens={(2, 0): 8})
+
+# --- the same name used in two namespaces (a service and a process called "mysql", an OS and a service
+#     called "web"); hosts run only one of the two
+spec("name_clash",
+     subnets=[2], topology=topo(2, [(0, 1)]),
+     os=["linux", "web"], services=["mysql", "web"], processes=["mysql", "cron"],
+     hosts={(1, 0): H("linux", ["web"], ["mysql"]),
+            (1, 1): H("web", ["mysql"], ["cron"])},
+     exploits={"e_mysql": E("mysql", None, 1.0, 1, U), "e_web": E("web", "web", 0.5, 1, R),
+               "e_web_lin": E("web", "linux", 1.0, 2, U)},
+     privescs={"pe_mysql": P("mysql", None, 1.0, 1, R), "pe_cron": P("cron", "linux", 1.0, 1, R)},
+     fw={(0, 1): ["mysql", "web"], (1, 0): []},
+     sens={(1, 0): 2, (1, 1): 3})
 
 # --- OS-specific / agnostic exploits, absent process, root-granting exploit, user-granting
 #     escalation, two definitions sharing (service, OS), odd values and costs, discovery values,
@@ -244,7 +275,8 @@ def yaml_variant(sp):
     return sp2
 
 
-BENCH_DIR = "/repo/nasim/scenarios/benchmark"
+REPO = os.environ.get("VERIF_REPO", "/repo")
+BENCH_DIR = os.path.join(REPO, "nasim", "scenarios", "benchmark")
 
 
 def bench_yaml(name):
@@ -253,3 +285,64 @@ def bench_yaml(name):
 
 YAML_BENCHMARKS = ["tiny", "tiny-hard", "tiny-small", "small", "small-honeypot", "small-linear", "medium",
                    "medium-single-site", "medium-multi-site"]
+
+
+def names_clash(cs):
+    a, b, c = set(cs["os"]), set(cs["services"]), set(cs["processes"])
+    return bool((a & b) or (a & c) or (b & c))
+
+
+def decoys_of(cs):
+    """Scenarios built and used in the same process BEFORE the scenario under test, with the same name:
+    A shifts the layout (different name sets, same row length where possible, every subnet public, another
+    topology); B has the same name sets in reversed order and the same bounds.  A process-global cache keyed by
+    scenario name / vector size / name sets that survives into the scenario under test shows up as a violation."""
+    os_l, srv_l, proc_l = list(cs["os"]), list(cs["services"]), list(cs["processes"])
+    if len(os_l) >= 2:
+        a_names = (os_l[:-1], srv_l + ["zz_decoy_srv"], proc_l)
+    elif len(srv_l) >= 2:
+        a_names = (os_l, srv_l[:-1], proc_l + ["zz_decoy_proc"])
+    elif len(proc_l) >= 2:
+        a_names = (os_l + ["zz_decoy_os"], srv_l, proc_l[:-1])
+    else:
+        a_names = (os_l + ["zz_decoy_os"], srv_l, proc_l)
+    b_names = (os_l[::-1], srv_l[::-1], proc_l[::-1])
+    n = len(cs["subnets"])
+    out = []
+    for tag, (o, sv, pr) in (("A", a_names), ("B", b_names)):
+        hosts = {}
+        order = [tuple(h) for h in cs["hosts"]]
+        if tag == "B":
+            order = order[::-1]
+        for i, h in enumerate(order):
+            hosts[h] = H(o[i % len(o)], sv, pr, value=0, dvalue=0)
+        edges = [(0, s) for s in range(1, n)] + [(s, s + 1) for s in range(1, n - 1)]
+        t = topo(n, edges)
+        fw = {}
+        for a_ in range(n):
+            for b_ in range(n):
+                if a_ != b_ and t[a_][b_]:
+                    fw[(a_, b_)] = list(sv)
+        sp = dict(name=cs["name"], subnets=list(cs["subnets"][1:]), topology=t, os=list(o), services=list(sv),
+                  processes=list(pr), hosts=hosts,
+                  exploits={"e_d": E(sv[0], None, 1.0, 1, R)}, privescs={"pe_d": P(pr[0], None, 1.0, 1, R)},
+                  fw=fw, sens={order[0]: 1}, scan_costs=(1, 1, 1, 1), step_limit=None,
+                  bounds=tuple(cs["bounds"]), extra=[])
+        out.append(sp)
+    return out
+
+
+def run_decoys(cs, steps=8):
+    import random
+    from nasim.envs import NASimEnv
+    rng = random.Random(7)
+    for sp in decoys_of(cs):
+        try:
+            env = NASimEnv(build_dict_scenario(sp), fully_obs=False, flat_actions=True, flat_obs=True)
+            env.reset()
+            for _ in range(steps):
+                env.step(rng.randrange(env.action_space.n))
+            env.get_action_mask()
+            del env
+        except Exception:      # a decoy is only there to leave process-global traces behind
+            pass
